@@ -266,3 +266,36 @@ PLANS['C14'] = dict(
          'Non-trivial: at least one callee is expected to run; distinct = distinct (expected call log, outcome kind).',
     assumptions=['the unbound-__conform__ TypeError accommodation (adapting a class) is outside the product'],
 )
+
+
+def _grid_jobs(tier, modes=('py',)):
+    shards, cases = (4, 3) if tier == 'quick' else (8, 4)
+    return [dict(mode=m, shards=shards, cases=cases, nshards=shards) for m in modes]
+
+
+PLANS['C17'] = dict(
+    engine='signature', level='exploration', jobs=lambda tier: _grid_jobs(tier, ('py', 'c') if tier == 'thorough' else ('py',)),
+    exhaustive=True,
+    minimums=lambda t: {'signature_pairs': 6900, 'pairs_accepted': 1000, 'pairs_rejected': 1000, 'multi_error_cases': 250,
+                        'cases_with_2plus_errors': 50, 'special_cases': 5},
+    rule='Complete grid of (interface method signature) x (implementation signature), each over required 0-3 x defaulted 0-2 x *args '
+         'x **kwargs (48 x 48 = 2304 pairs) in three forms (plain function on the instance, bound method, verifyClass with self); '
+         'the admitted call shapes of the interface signature are built explicitly and tried with inspect.signature(impl).bind; '
+         'plus random multi-error cases (missing methods/attributes incl. names from base interfaces, undeclared, tentative, '
+         'class vs object) whose reported failures must be exactly the expected ones, and non-introspectable/non-callable attributes.  '
+         'exhaustive refers to the signature grid.  Every pair is non-trivial; distinct = distinct (form, interface sig, impl sig).',
+    assumptions=['keyword-only and positional-only parameters are outside this property\'s quantifier (C18)',
+                 'verifyClass does not report missing plain attributes (documented)'],
+)
+PLANS['C18'] = dict(
+    engine='signature', level='exploration', jobs=lambda tier: _grid_jobs(tier, ('py', 'c') if tier == 'thorough' else ('py',)),
+    exhaustive=True,
+    minimums=lambda t: {'descriptions[fromFunction]': 756, 'descriptions[abc]': 756, 'descriptions[fromMethod-bound]': 756,
+                        'descriptions[interface-body]': 756, 'shipped_abc_methods': 20},
+    rule='Complete grid of generated def statements: positional-only 0-2 x required 0-2 x defaulted 0-2 x *args x keyword-only 0-2 '
+         '(every with/without-default mask) x **kw (756 functions, varied */** names) through six routes (fromFunction, interface '
+         'class body, fromMethod of a bound method and of the function, fromFunction(imlevel=1), ABCInterfaceClass) plus the methods '
+         'of the shipped zope.interface.common.collections ABC interfaces; getSignatureInfo()/getSignatureString()/tagged values '
+         'against inspect.signature.  Non-trivial: any of posonly/defaults/*args/kwonly/**kw present; distinct = distinct grid points.',
+    assumptions=['inspect.signature is the reference'],
+)
